@@ -10,6 +10,15 @@ COMMON_NOTE = ("Trusted base: TLC 1.8 evaluating the TLA+ specification in /veri
                "assumption of DESIGN 2.5 for the exhaustive part; simulated / random traces go beyond it.")
 
 CHECKS = {
+ "C02": dict(engine="Products", design="3/C02",
+   text=("Products.tla defines every multilinear product by its explicit sum over indices; TLC cross-validates "
+         "these definitions against independent ones (ttm via matricization, mttkrp via repeated ttv and via "
+         "Khatri-Rao, innerprod via ttt, collapse via ttv with ones, contract via ttt with an identity) on every "
+         "generated call, enumerates all calls in scope (receiver kinds x operations x every dims / exclude_dims "
+         "designation x multiplicand-list lengths), and the calls are executed on the real classes; TLC validates "
+         "the recorded results against Products_Trace, which accepts a result iff its denotation (whatever its "
+         "kind) equals the defined value."),
+   technique="TLA+ spec Products; TLC law checking + exhaustive call generation; replay into pyttb; TLC trace validation"),
  "C01": dict(engine="Convert", design="3/C01",
    text=("TLC model-checks Convert (Unmat o Mat = id for every ordered partition, cyclic conventions are partitions "
          "with the documented column order, dense<->sparse<->sparse-matricized preserve denotation and nonzero "
